@@ -4,9 +4,9 @@
      C01_fragment_preservation -- semantic preservation of the backend model (Back/IR.v `lower` + the AST
      twin Pres/EmitAst.v of the text emitter Back/Emit.v) with respect to the reference interpreter
      Sem/SyltSem.v (source side) and the Lua 5.3 interpreter model Lua/LuaCore.v (target side), for the
-     computable fragment Pres/Frag.v `frag` (STAGE 2: int/bool expressions, print, definitions, assignments
+     computable fragment Pres/Frag.v `frag` (STAGE 3a: int/bool expressions, print, definitions, assignments
      = += -= *=, if/elif/else expressions and statements, loops with break and continue, blocks, inside
-     `start :: fn do ... end`).  The Lua side runs the statements of the
+     `start :: fn do ... end`, and top-level global definitions of such expressions before start).  The Lua side runs the statements of the
      REAL preamble.lua (Gen/GenPreamble.v, regenerated on every run) followed by the program's statements.
    WHAT IS CHECKED AT RUN TIME, per program of the tie (tools/props/c01.py):
      * component "emit_ast": LuaParse.parse_lua Lua53 (real compiler output) = ParseOk (chunk_ast code), i.e. the
@@ -162,6 +162,51 @@ Example C01_example2_lua_side :
   match lower 30 ex_prog2 with
   | Ok code => let out := LuaCore.run_block Lua53 4900 (chunk_ast code) in
                o_trace out = ["1"; "2"; "4"; "6"; "8"; "7"]%string /\ o_final out = FDone
+  | _ => False
+  end.
+Proof. vm_compute. split; reflexivity. Qed.
+
+(* ---- a third program (stage 3a): top-level global definitions before start ----
+     a :: 3
+     b :: a + 4 * a
+     c :: b > 10 and not (a == 2)
+     start :: fn do
+       x := a
+       x += b
+       print(x)  print(c)
+       if c do print(a) end
+     end                                                                                        *)
+Definition ex_prog3 : resolved :=
+  mkResolved
+    [mkVar 0 "print" sp0 true Const; mkVar 1 "a" sp0 true Const; mkVar 2 "b" sp0 true Const; mkVar 3 "c" sp0 true Const;
+     mkVar 4 "start" sp0 true Const; mkVar 5 "== STACK ==" sp0 false Const; mkVar 6 "x" sp0 false Mutable]
+    [SExternalDefinition "print" 0 Const (TImplied sp0) sp0;
+     SDefinition "a" 1 Const (TImplied sp0) (EInt 3 sp0) sp0;
+     SDefinition "b" 2 Const (TImplied sp0)
+       (EBinOp Add (ERead 1 sp0) (EBinOp Mul (EInt 4 sp0) (ERead 1 sp0) sp0) sp0) sp0;
+     SDefinition "c" 3 Const (TImplied sp0)
+       (EBinOp And (EBinOp Greater (ERead 2 sp0) (EInt 10 sp0) sp0)
+                   (EUniOp Not (EBinOp Equals (ERead 1 sp0) (EInt 2 sp0) sp0) sp0) sp0) sp0;
+     SDefinition "start" 4 Const (TImplied sp0)
+       (EFunction "lambda" [] (TImplied sp0)
+          [SDefinition "x" 6 Mutable (TImplied sp0) (ERead 1 sp0) sp0;
+           SAssignment Add (ERead 6 sp0) (ERead 2 sp0) sp0;
+           SStatementExpression (Resolved.ECall (ERead 0 sp0) [ERead 6 sp0] sp0) sp0;
+           SStatementExpression (Resolved.ECall (ERead 0 sp0) [ERead 3 sp0] sp0) sp0;
+           SStatementExpression
+             (EIf [IfBranch (Some (ERead 3 sp0)) [SStatementExpression (Resolved.ECall (ERead 0 sp0) [ERead 1 sp0] sp0) sp0] sp0] sp0) sp0]
+          false sp0) sp0].
+
+Example C01_example3_hypotheses :
+  frag 30 ex_prog3 = true /\
+  (exists code, lower 30 ex_prog3 = Ok code) /\
+  SyltSem.run 30 ex_prog3 = mkRun ["18"; "true"; "3"]%string ODone.
+Proof. split; [vm_compute; reflexivity | split; [eexists; vm_compute; reflexivity | vm_compute; reflexivity]]. Qed.
+
+Example C01_example3_lua_side :
+  match lower 30 ex_prog3 with
+  | Ok code => let out := LuaCore.run_block Lua53 4000 (chunk_ast code) in
+               o_trace out = ["18"; "true"; "3"]%string /\ o_final out = FDone
   | _ => False
   end.
 Proof. vm_compute. split; reflexivity. Qed.
